@@ -20,7 +20,8 @@ RULE = ("Programs = straight-line programs of depth 1-8 over position-coded int6
         "rebuilds every intermediate freshly (a[...]/a[()] stay aliases).  Both must agree on the status of every step, every "
         "value read, and the final content / lengths / dtype of every variable.  A second, model-based sub-check composes 1-3 "
         "selections and applies every terminal read and write kind against the list-of-rows model.  Non-trivial = a step is "
-        "applied to a view of a view, or to a view with a negative / non-unit column step, or writes into a pending view.")
+        "applied to a view of a view, or to a view with a negative / non-unit column step, or writes into a pending view."
+        "  Programs include arrays constructed on another array's flat view (same / reversed / strided) and chains of 1-3 producing operations followed by an assignment into the last result.")
 ASSUMPTIONS = ["writes to X while a never-materialised selection over X's buffer is live are skipped (counted): that region is "
                "known finding K1, owned by C10",
                "depth <= 8, <= 10 live variables, int64 content (dtype behaviour is C04's)"]
